@@ -911,8 +911,14 @@ async fn input_processing(
         let labels_of_other_inputs: Vec<Option<Label>> = masked_inputs
             .iter()
             .enumerate()
-            .map(|(w, input)| input.map(|b| input_labels[w] ^ (b & delta)))
-            .collect();
+            .map(|(w, input)| match input {
+                Some(b) => input_labels
+                    .get(w)
+                    .map(|label| Some(*label ^ (*b & delta)))
+                    .ok_or(MpcError::InputWithoutLabel(w)),
+                None => Ok(None),
+            })
+            .collect::<Result<_, _>>()?;
         send_to(channel, p_eval, "labels", &labels_of_other_inputs).await?;
     } else {
         debug!("Evaluator party, receiving masked inputs and labels");
